@@ -736,7 +736,7 @@ func checkC04(c *Ctx) {
 	// the same contract while the cache content flips underneath the request: a
 	// Spec file alternates between "a only" and "b only"; a request for both is
 	// unresolvable in every content the cache ever has
-	c.RunCases("flip", c.pick(12, 40), 0, func(cs *Case) {
+	c.RunCases("flip", c.pick(16, 40), 0, func(cs *Case) {
 		root := filepath.Join(c.Scratch, sanitize(cs.Name))
 		must(os.MkdirAll(root, 0o755))
 		defer os.RemoveAll(root)
@@ -780,7 +780,7 @@ func checkC04(c *Ctx) {
 			}
 			req = append(req, last)
 		}
-		for i := 0; i < c.pick(3000, 20000); i++ {
+		for i := 0; i < c.pick(8000, 20000); i++ {
 			spec := &oci.Spec{Process: &oci.Process{Env: []string{"KEEP=1"}}}
 			unres, err := cache.InjectDevices(spec, req...)
 			c.Count("flip_requests", 1)
